@@ -2,7 +2,12 @@
 """Renders seeded/matrix.tsv as the markdown table of DESIGN.md section 11.6 (replaces the block between the markers)."""
 import os, re, json
 rows = []
+last = {}
 for line in open('/verif/seeded/matrix.tsv'):
+    f = line.rstrip('\n').split('\t')
+    if len(f) >= 4:
+        last[f[0]] = line
+for line in last.values():
     f = line.rstrip('\n').split('\t')
     if len(f) < 4:
         continue
@@ -19,6 +24,15 @@ for line in open('/verif/seeded/matrix.tsv'):
     else:
         res = viol
     rows.append((os.path.basename(d), pid, title[:150], res))
+OVERRIDE = {
+    'C02-A': 'checkOnce consults the sticky non-fatal failure only after a skip, no longer after a normal return (a failure signalled in a cleanup of a passing case is lost)',
+    'C02-B': 'T.fail marks only the immediate parent: Errorf then Skip in a Custom nested in a Custom is lost',
+    'C09-A': 'FailNow moved inside the falsified-property branch of checkTB (not called after "only generated")',
+    'C09-B': "Repeat's invariant is run through runAction: a Skip from the invariant is swallowed and the case counts as valid",
+    'C11-A': 'findBug reuses one T across test cases and checkOnce no longer consults the failure flag on a skip (two cooperating sites)',
+    'C11-B': 'randomBitStream.init(seed) returns early when nothing was drawn since the last init: the case after a draw-less case runs on the old stream',
+}
+rows = [(a, b, OVERRIDE.get(a, c), d) for (a, b, c, d) in rows]
 rows.sort()
 out = ['| change | property | what it does | quick check of its property |', '|---|---|---|---|']
 for r in rows:
